@@ -170,14 +170,20 @@ class Ctx:
         out['probes'] = probes(self.a5)
         return out
 
+    @staticmethod
+    def _filler_allowance(spec):
+        """Extra wall clock for capacity fillers (they run at full speed but can be tens of thousands of calls)."""
+        n = (spec.get('bulk') or {}).get('n', 0) + sum(op.get('n', 0) for op in spec.get('ops', []) if op.get('op') == 'bulk')
+        return 0.02 * n
+
     def run_threads(self, spec, wall=180.0):
-        return self._retry(self._threads_child, spec, wall)
+        return self._retry(self._threads_child, spec, wall + self._filler_allowance(spec))
 
     def run_seq(self, spec, wall=180.0):
-        return self._retry(self._seq_child, spec, wall)
+        return self._retry(self._seq_child, spec, wall + self._filler_allowance(spec))
 
     def run_history(self, spec, wall=180.0):
-        return self._retry(self._history_child, spec, wall)
+        return self._retry(self._history_child, spec, wall + self._filler_allowance(spec))
 
     def _retry(self, fn, spec, wall):
         try:
